@@ -4,7 +4,16 @@ whose string arguments are templates (strdom) and which carry their guard stack 
 unrolled (body interpreted once per collection part); helper methods are inlined with parameter binding."""
 import ast
 
-from .inline import flatten
+from .inline import flatten as _flatten_plain, sink_search_tails
+
+
+def flatten(prog, fi):
+    """helpers inlined, and the continuation of a sentinel search moved to the hit (both exact, see inline.py)"""
+    cache = prog.__dict__.setdefault('_flat_sunk_cache', {})
+    key = (fi.key, id(fi.node))
+    if key not in cache:
+        cache[key] = sink_search_tails(_flatten_plain(prog, fi))
+    return cache[key]
 
 from .loader import AnalysisError, unparse, call_name, attr_chain
 from .strdom import (Val, Role, Coll, Cond, Guard, Hole, Str, Num, Tup, ListVal, EqObj, Opaque, Const, Phi,
@@ -156,7 +165,7 @@ class Interp(object):
         self.field_origin = {}     # name -> 'ctor' ...
         self.notes = []
         self.opaque_uses = []
-        self.breaks = []           # (loopkey, guards, where)
+        self.breaks = []           # (loopkey, guards, where, selects the element)
         self.loop_serial = 0
 
     # ---- helpers ---------------------------------------------------------------------------------------
@@ -1145,7 +1154,15 @@ class Interp(object):
             return CONT
         if isinstance(s, ast.Break):
             if self.loops:
-                self.breaks.append((self.loops[-1][0], tuple(self.guards), '%s:%d' % (fr.func.module.rel, s.lineno)))
+                lk = self.loops[-1][0]
+                targets, start = self.loop_meta[-1] if getattr(self, 'loop_meta', None) else (set(), 0)
+                from .algebra import mentions_elem
+                # does leaving the loop here select the element?  (an effect of this iteration names it, or it is kept in
+                # a variable) - a search that only raises a flag selects nothing
+                used = any(any(l[0] == lk for l in e_.loops) for e_ in self.effects[start:])
+                kept = any(k_ not in targets and isinstance(v_, Val) and not isinstance(v_, (ListVal,)) and mentions_elem(v_.key(), lk)
+                           for k_, v_ in fr.env.items())
+                self.breaks.append((lk, tuple(self.guards), '%s:%d' % (fr.func.module.rel, s.lineno), used or kept))
             return BREAK
         if isinstance(s, ast.If):
             return self.if_stmt(s, fr)
@@ -1297,6 +1314,9 @@ class Interp(object):
             if coll is not None:
                 ck = coll.show()
                 self.loops.append((ck, coll))
+                if not hasattr(self, 'loop_meta'):
+                    self.loop_meta = []
+                self.loop_meta.append(({x.id for x in ast.walk(s.target) if isinstance(x, ast.Name)}, len(self.effects)))
                 if elem is None:
                     if coll.kind in ('zone_sectors', 'country_sectors', 'model_sectors', 'sectors_of'):
                         ev_ = Role('loop', ck)
@@ -1307,6 +1327,7 @@ class Interp(object):
                 self.assign(s.target, ev_, fr, s)
                 k = self.block(s.body, fr)
                 self.loops.pop()
+                self.loop_meta.pop()
             else:
                 self.assign(s.target, elem, fr, s)
                 k = self.block(s.body, fr)
